@@ -175,6 +175,25 @@ Theorem C11_source_symmetric_difference_update : forall s o, Inv s ->
 Proof. exact source_symmetric_difference_update. Qed.
 Print Assumptions C11_source_symmetric_difference_update.
 
+Theorem C11_source_compact : forall s, Inv0 s -> src_compact s = m_compact s.
+Proof. exact source_compact. Qed.
+Print Assumptions C11_source_compact.
+Theorem C11_source_iter : forall s, src_iter s = m_live s.
+Proof. exact source_iter. Qed.
+Print Assumptions C11_source_iter.
+Theorem C11_source_reversed : forall s, src_reversed s = rev (m_live s).
+Proof. exact source_reversed. Qed.
+Print Assumptions C11_source_reversed.
+(* iter_slice, as __getitem__ uses it for a slice argument with a step that is omitted or >= 0 *)
+Theorem C11_source_slice : forall s a b (k : option nat),
+  m_slice s a b k =
+  match src_iter_slice s a b (option_map Z.of_nat k) with
+  | None => Raise ValueError
+  | Some sl => Ok (RList (m_live (m_from_list sl)))
+  end.
+Proof. exact source_slice. Qed.
+Print Assumptions C11_source_slice.
+
 (* s[a:b:k], k > 0: iter_slice + islice = the list slice of CPython *)
 Theorem C11_slice : forall s a b k, Inv s -> valid_op (m_live s) (Slice a b k) = true ->
   m_slice s a b k = snd (spec_step (m_live s) (Slice a b k)).
